@@ -1,6 +1,9 @@
 (* C05 — Gibbs step refreshes every coordinate once, conditioning on the freshest state.
    Model: Model/Gibbs.v (cond is any, possibly stateful, user conditional). *)
 From MiniMcmc Require Import Base.Util Model.Gibbs Proofs.Gibbs.
+(* probabilistic consequence (finite state space, exact over R): Model/GibbsDist.v.  Neither
+   file opens R_scope globally, so the statements below the first section are unaffected. *)
+From MiniMcmc Require Import Model.GibbsDist Proofs.GibbsDist.
 
 Section C05.
   Context {V C : Type}.
@@ -40,3 +43,162 @@ Print Assumptions C05_calls.
 Print Assumptions C05_freshest.
 Print Assumptions C05_frame_length.
 Print Assumptions C05_frame_written.
+
+(* ======================================================================================
+   "Hence for the full conditionals of any joint distribution the step leaves that joint
+   distribution invariant."  Finite state space [states], joint weights pi >= 0 (not
+   necessarily normalised).  A kernel K x x' is the probability of moving from x to x';
+   [invariant states pi K] is  forall x' in states, Sum_x pi x * K x x' = pi x'.
+   [blk x] is the part of x an update keeps (coordinate i: every coordinate but i);
+   [cond_kernel .. blk] is the exact full conditional: pi restricted to the block of the
+   *current* state, normalised.  The step is the in-order composition (compose_all) of the
+   coordinate kernels - the order and freshness established by C05_calls / C05_freshest. *)
+Section C05_dist.
+  Local Open Scope R_scope.
+  Context {X B : Type}.
+  Variable states : list X.
+  Variable pi : X -> R.
+  Variable eqbB : B -> B -> bool.
+  Hypothesis eqbB_spec : forall a b, eqbB a b = true <-> a = b.
+  Hypothesis pi_nonneg : forall x, 0 <= pi x.
+  Variable eqbX : X -> X -> bool.
+  Hypothesis eqbX_spec : forall a b, eqbX a b = true <-> a = b.
+  Hypothesis states_nodup : NoDup states.
+
+  (* one exact full conditional leaves the joint invariant (any block function) *)
+  Theorem C05_cond_invariant : forall blk : X -> B,
+    invariant states pi (cond_kernel states pi eqbB blk).
+  Proof. exact (cond_kernel_invariant states pi eqbB eqbB_spec pi_nonneg). Qed.
+
+  (* it is a probability distribution whenever the current block carries mass *)
+  Theorem C05_cond_stochastic : forall (blk : X -> B) x,
+    block_mass states pi eqbB blk (blk x) <> 0 ->
+    Model.MH.sumR (cond_kernel states pi eqbB blk x) states = 1.
+  Proof. exact (cond_kernel_stochastic states pi eqbB). Qed.
+
+  (* it only moves inside the block of the current state *)
+  Theorem C05_cond_support : forall (blk : X -> B) x x',
+    cond_kernel states pi eqbB blk x x' <> 0 -> blk x' = blk x.
+  Proof. exact (cond_kernel_support states pi eqbB eqbB_spec). Qed.
+
+  (* invariance is closed under composition *)
+  Theorem C05_compose_invariant : forall K1 K2 : kernel,
+    invariant states pi K1 -> invariant states pi K2 ->
+    invariant states pi (compose states K1 K2).
+  Proof. exact (compose_invariant states pi). Qed.
+
+  (* hence under any in-order composition of invariant kernels *)
+  Theorem C05_sweep_invariant : forall Ks : list kernel,
+    Forall (invariant states pi) Ks ->
+    invariant states pi (compose_all states Ks (id_kernel eqbX)).
+  Proof. exact (sweep_invariant states pi eqbX eqbX_spec states_nodup). Qed.
+
+  (* the step: one exact full conditional per block function, in order *)
+  Theorem C05_invariant : forall blks : list (X -> B),
+    invariant states pi
+      (compose_all states (map (fun blk => cond_kernel states pi eqbB blk) blks)
+                   (id_kernel eqbX)).
+  Proof.
+    exact (gibbs_sweep_invariant states pi eqbB eqbB_spec pi_nonneg eqbX eqbX_spec states_nodup).
+  Qed.
+
+  (* and the step is a Markov kernel when every state carries mass *)
+  Theorem C05_stochastic : forall blks : list (X -> B),
+    (forall x, In x states -> 0 < pi x) ->
+    stochastic states
+      (compose_all states (map (fun blk => cond_kernel states pi eqbB blk) blks)
+                   (id_kernel eqbX)).
+  Proof.
+    exact (gibbs_sweep_stochastic states pi eqbB eqbB_spec pi_nonneg eqbX eqbX_spec states_nodup).
+  Qed.
+End C05_dist.
+
+(* Product spaces: states are lists of V, the block of coordinate i erases coordinate i
+   ([blk_coord dflt i x = upd i dflt x]); [gibbs_kernel .. d] composes the coordinate kernels
+   of 0, 1, ..., d-1 in that order. *)
+Section C05_product.
+  Local Open Scope R_scope.
+  Context {V : Type}.
+  Variable dflt : V.
+  Variable eqbV : V -> V -> bool.
+  Hypothesis eqbV_spec : forall a b, eqbV a b = true <-> a = b.
+  Variable states : list (list V).
+  Variable pi : list V -> R.
+  Hypothesis pi_nonneg : forall x, 0 <= pi x.
+  Hypothesis states_nodup : NoDup states.
+
+  (* writing coordinate i (what the code's step does with the answer) stays in block i *)
+  Theorem C05_blk_upd : forall i (v : V) x, upd i dflt (upd i v x) = upd i dflt x.
+  Proof. exact (blk_upd dflt). Qed.
+
+  (* same block iff equal off coordinate i *)
+  Theorem C05_blk_same_iff : forall i (x y : list V), length x = length y ->
+    (upd i dflt x = upd i dflt y <-> forall j, j <> i -> nth j x dflt = nth j y dflt).
+  Proof. exact (blk_same_iff dflt). Qed.
+
+  (* the coordinate-i full conditional only ever writes coordinate i *)
+  Theorem C05_cond_writes_coord : forall i (x x' : list V), length x' = length x ->
+    cond_kernel states pi (list_eqb eqbV) (blk_coord dflt i) x x' <> 0 ->
+    x' = upd i (nth i x' dflt) x.
+  Proof. exact (coord_kernel_writes_coord dflt eqbV eqbV_spec states pi). Qed.
+
+  Theorem C05_gibbs_invariant : forall d,
+    invariant states pi (gibbs_kernel eqbV dflt states pi d).
+  Proof. exact (gibbs_kernel_invariant dflt eqbV eqbV_spec states pi pi_nonneg states_nodup). Qed.
+
+  Theorem C05_gibbs_stochastic : forall d, (forall x, In x states -> 0 < pi x) ->
+    stochastic states (gibbs_kernel eqbV dflt states pi d).
+  Proof. exact (gibbs_kernel_stochastic dflt eqbV eqbV_spec states pi pi_nonneg states_nodup). Qed.
+End C05_product.
+
+(* Non-vacuity: {0,1}^2 with the correlated joint pi(00)=pi(11)=4, pi(01)=pi(10)=1: the
+   hypotheses hold, the 2-coordinate Gibbs kernel is invariant and stochastic, and the
+   conditional is not trivial (from (0,0), coordinate 0 moves to 1 with probability 1/5). *)
+Example C05_dist_example :
+  ex_states = [[0; 0]; [0; 1]; [1; 0]; [1; 1]] /\
+  NoDup ex_states /\
+  (forall a b : nat, Nat.eqb a b = true <-> a = b) /\
+  (forall x, (0 < ex_pi x)%R) /\
+  invariant ex_states ex_pi (gibbs_kernel Nat.eqb 0 ex_states ex_pi 2) /\
+  stochastic ex_states (gibbs_kernel Nat.eqb 0 ex_states ex_pi 2) /\
+  cond_kernel ex_states ex_pi (list_eqb Nat.eqb) (blk_coord 0 0) [0; 0] [1; 0] = (1 / 5)%R.
+Proof.
+  split; [reflexivity|]. split; [exact ex_states_nodup|]. split; [exact nat_eqb_spec|].
+  split; [exact ex_pi_pos|].
+  split; [exact (gibbs_kernel_invariant 0 Nat.eqb nat_eqb_spec ex_states ex_pi
+                   ex_pi_nonneg ex_states_nodup 2)|].
+  split; [exact (gibbs_kernel_stochastic 0 Nat.eqb nat_eqb_spec ex_states ex_pi
+                   ex_pi_nonneg ex_states_nodup 2 (fun x _ => ex_pi_pos x))|].
+  exact ex_cond_value.
+Qed.
+
+(* The order/freshness proved by C05_freshest matters: the "stale snapshot" variant, which
+   refreshes both coordinates from conditionals evaluated at the OLD state (x'_0 ~ pi(.|x_1),
+   x'_1 ~ pi(.|x_0), independently), is still a Markov kernel but does NOT leave the joint
+   invariant: Sum_x pi x * K x (0,0) = 76/25, whereas pi (0,0) = 4. *)
+Example C05_stale_snapshot_refuted :
+  (forall x, In x ex_states ->
+     Model.MH.sumR (stale_kernel Nat.eqb 0 ex_states ex_pi x) ex_states = 1%R) /\
+  Model.MH.sumR (fun x => (ex_pi x * stale_kernel Nat.eqb 0%nat ex_states ex_pi x [0; 0]%nat)%R) ex_states
+    = (76 / 25)%R /\
+  ex_pi [0; 0] = 4%R /\
+  ~ invariant ex_states ex_pi (stale_kernel Nat.eqb 0 ex_states ex_pi).
+Proof.
+  split; [exact ex_stale_row|]. split; [exact ex_stale_value|].
+  split; [reflexivity|]. exact stale_not_invariant.
+Qed.
+
+Print Assumptions C05_cond_invariant.
+Print Assumptions C05_cond_stochastic.
+Print Assumptions C05_cond_support.
+Print Assumptions C05_compose_invariant.
+Print Assumptions C05_sweep_invariant.
+Print Assumptions C05_invariant.
+Print Assumptions C05_stochastic.
+Print Assumptions C05_blk_upd.
+Print Assumptions C05_blk_same_iff.
+Print Assumptions C05_cond_writes_coord.
+Print Assumptions C05_gibbs_invariant.
+Print Assumptions C05_gibbs_stochastic.
+Print Assumptions C05_dist_example.
+Print Assumptions C05_stale_snapshot_refuted.
